@@ -122,12 +122,15 @@ func TestCases(t *testing.T) {
 			// step with the events, so that a re-list sees the truth
 			var wmu sync.Mutex
 			var podsWatch *watch.FakeWatcher
+			opened := 0
 			fakeClient.PrependWatchReactor("pods", func(kube_testing.Action) (bool, watch.Interface, error) {
 				wmu.Lock()
 				defer wmu.Unlock()
 				podsWatch = watch.NewFake()
+				opened++
 				return true, podsWatch, nil
 			})
+			watches := func() int { wmu.Lock(); defer wmu.Unlock(); return opened }
 			cur := func() *watch.FakeWatcher { wmu.Lock(); defer wmu.Unlock(); return podsWatch }
 			gvr := core_v1.SchemeGroupVersion.WithResource("pods")
 			relist := idx%3 == 2 // deletions are not seen on the watch: it breaks, the pod goes, the reflector lists again
@@ -159,8 +162,13 @@ func TestCases(t *testing.T) {
 					if relist {
 						// the watch ends with "too old resource version": the reflector has to list again, and finds the pod gone
 						cur().Error(&meta_v1.Status{Status: "Failure", Reason: meta_v1.StatusReasonExpired, Code: 410, Message: "too old resource version"})
+						before := watches() - 1
 						synctest.Wait()
-						time.Sleep(5 * time.Second) // the reflector's back-off before it lists again
+						// the reflector lists again after a back-off that grows with every failure: wait until it has opened its next watch
+						for i := 0; i < 600 && watches()-1 == before; i++ {
+							time.Sleep(time.Second)
+							synctest.Wait()
+						}
 						res.Hit("deletion-seen-by-relist")
 					} else {
 						cur().Delete(podObj(s.Name, s.Pod))
